@@ -364,6 +364,16 @@ def leaves(P, f, o, through_loads=True, limit=400):
             for s in i.path:
                 if s[0] == "f":
                     fields.add((s[1], P.field_name(s[1], s[2])))
+            if i.st == "i8" and len(i.path) == 1:
+                c = P.const_int(i.path[0][1])
+                if c is not None and c < 0:
+                    # container_of: which member of which struct?
+                    for u in f.users(i.id):
+                        if u.op == "bitcast" and u.ty and u.ty.startswith("%struct.") and u.ty.endswith("*"):
+                            sn = u.ty[1:-1]
+                            for mem in P.structs.get(sn, {}).get("members", []):
+                                if mem["off_bits"] == -c * 8:
+                                    fields.add((sn, mem["name"]))
             st.append(i.a[0])
         elif i.op == "load" and through_loads:
             st.append(i.a[0])
